@@ -74,3 +74,23 @@ func Go(dir string, args ...string) (string, error) {
 	}
 	return string(b), nil
 }
+
+var cliPath string
+
+// CLI builds (once per invocation) the real command-line binary from the repository under test and returns its path.
+func CLI() (string, error) {
+	if cliPath != "" {
+		return cliPath, nil
+	}
+	out := filepath.Join(Root(), "gojsonschema")
+	args := []string{"build"}
+	if mf := os.Getenv("VERIF_MODFLAG"); mf != "" {
+		args = append(args, mf)
+	}
+	args = append(args, "-o", out, "github.com/atombender/go-jsonschema")
+	if msg, err := Go(HarnessDir(), args...); err != nil {
+		return "", fmt.Errorf("%v: %s", err, msg)
+	}
+	cliPath = out
+	return out, nil
+}
